@@ -433,6 +433,27 @@ func ruleSQLTAINT(c *Ctx, r *Report) {
 		r.bad(rule, "anchor", "-", dr.Err)
 		return
 	}
+	// every format string in the driver is a constant (or one of several constants): an operand — a column
+	// name, a serialised value — is never interpreted as a format
+	nFmt := 0
+	for _, f := range c.Funcs {
+		if fnPkgPath(f) != pkgDriver {
+			continue
+		}
+		for _, b := range f.Blocks {
+			for _, in := range b.Instrs {
+				name, format, _, _ := c.fmtCall(in)
+				if name == "" {
+					continue
+				}
+				nFmt++
+				if _, ok := c.constStringSet(format, 0); !ok {
+					r.bad(rule, "format|"+fnName(f)+"|"+c.key(format, nil), c.instrPos(in), fmt.Sprintf("%s builds SQL with a format string that is not a constant (%s): text taken from the query (a column name, a value) is interpreted as a format, so a %% in it garbles the SQL", fnName(f), c.key(format, nil)))
+				}
+			}
+		}
+	}
+	r.ok(rule, "format|constants", "-", fmt.Sprintf("%d format strings in the driver package are constants", nFmt))
 	for _, mode := range []struct {
 		name string
 		fn   *ssa.Function
@@ -561,7 +582,19 @@ func (c *Ctx) numFinite(r *Report) {
 		return
 	}
 	n := 0
-	for _, b := range pr.TokToLit.Blocks {
+	var blocks []*ssa.BasicBlock
+	for f := range c.reachFrom([]*ssa.Function{pr.TokToLit}) {
+		if fnPkgPath(f) == pkgRoot {
+			blocks = append(blocks, f.Blocks...)
+		}
+	}
+	sort.Slice(blocks, func(i, j int) bool {
+		if blocks[i].Parent() != blocks[j].Parent() {
+			return fnName(blocks[i].Parent()) < fnName(blocks[j].Parent())
+		}
+		return blocks[i].Index < blocks[j].Index
+	})
+	for _, b := range blocks {
 		for _, in := range b.Instrs {
 			call, ok := in.(*ssa.Call)
 			if !ok || calleeFullName(call) != "strconv.ParseFloat" {
@@ -1605,4 +1638,92 @@ func ruleSPLITSAFE(c *Ctx, r *Report) {
 	if len(shapes) == 2 && shapes[0] != shapes[1] {
 		r.bad(rule, "sibling|split-shape", "-", fmt.Sprintf("the inline and parameterized range functions split the boundary text differently: %v", shapes))
 	}
+}
+
+// RANGE-SEP (C08): a string range bound that contains the separator the range function splits on cannot be
+// rendered inline (the re-split yields more than two parts and the function fails).
+func ruleRANGESEP(c *Ctx, r *Report) {
+	const rule = "RANGE-SEP"
+	r.doc(rule, "the inline range function re-splits the serialised boundary text on a constant separator; the serialisation of a string bound is arbitrary quoted text, so unless the serialiser excludes the separator from it (or the split is quote-aware) a quoted bound containing the separator is not delivered — the range fails to render. Decided from the split call's separator and the string case of the serialiser that feeds it")
+	pt := c.pgPreamble(r, rule)
+	dr := c.driverRoles()
+	if pt == nil || dr.Err != "" {
+		return
+	}
+	type side struct {
+		name string
+		fn   *ssa.Function
+		ser  *ssa.Function
+	}
+	var sides []side
+	if e := pt.Eff["expr.Range"]; e != nil && e.Fn != nil {
+		sides = append(sides, side{"inline", e.Fn, dr.Ser})
+	}
+	if dr.RangeParam != nil {
+		sides = append(sides, side{"param", dr.RangeParam, dr.SerParam})
+	}
+	n := 0
+	for _, sd := range sides {
+		// does the string case of the serialiser splice payload text into the SQL?
+		rows, _ := c.successSkeletons(sd.ser)
+		splices := false
+		var guards []string
+		for _, row := range rows {
+			isStr := false
+			for _, a := range row.Atoms {
+				if a.Kind == "type" && a.Pos && a.Subj == "$1" && a.Val == "string" {
+					isStr = true
+				}
+			}
+			if !isStr {
+				continue
+			}
+			for _, sg := range row.Skel {
+				if !sg.isLit() && strings.Contains(sg.Hole, "$1.(string)") {
+					splices = true
+				}
+			}
+			for _, a := range row.Atoms {
+				if a.Kind == "call" && strings.Contains(a.Val, "$1.(string)") {
+					guards = append(guards, a.String())
+				}
+			}
+		}
+		paths, _ := c.enumPathsInl(sd.fn, 20000)
+		seen := map[*ssa.Call]bool{}
+		for _, p := range paths {
+			for _, in := range p.Instrs {
+				call, ok := in.(*ssa.Call)
+				if !ok || seen[call] {
+					continue
+				}
+				name := calleeFullName(call)
+				if !strings.HasPrefix(name, "strings.Split") || len(call.Call.Args) < 2 {
+					continue
+				}
+				seen[call] = true
+				sep, isC := constStringVal(c.resolve(call.Call.Args[1], p.Env))
+				if !isC {
+					continue
+				}
+				n++
+				key := fmt.Sprintf("%s|sep=%q", sd.name, sep)
+				excluded := false
+				for _, g := range guards {
+					if strings.Contains(g, fmt.Sprintf("%q", sep)) && strings.HasPrefix(g, "!") {
+						excluded = true
+					}
+				}
+				switch {
+				case !splices:
+					r.ok(rule, key, c.instrPos(in), "string bounds are not spliced into the text that is split (placeholders)")
+				case excluded:
+					r.ok(rule, key, c.instrPos(in), "the serialiser rejects strings containing the separator")
+				default:
+					r.badW(rule, key, c.instrPos(in), fmt.Sprintf("%s splits the serialised range text on %q, and a quoted string bound may contain %q: such a range cannot be rendered although the same bound is delivered as a parameter", fnName(sd.fn), sep, sep), "`a:[\"Smith, J\" TO \"Smith, K\"]` → ToPostgres fails with \"the BETWEEN operator needs a two item list\"; ToParameterizedPostgres delivers both bounds")
+				}
+			}
+		}
+	}
+	r.floor(rule, "range text splits examined", n, 2)
 }
